@@ -50,7 +50,13 @@ var sAttrs = []sAttr{
 	{200, nil},
 }
 
-func sPrefix(k int) wPrefix { return wPrefix{IP: [4]byte{10, 20, byte(k), 0}, Len: 24 + k%9} }
+func sPrefix(k int) wPrefix {
+	if k >= sNKeys { // the large key space of the mass schedules: host routes 10.(100+i/256).(i%256).7/32
+		i := k - sNKeys
+		return wPrefix{IP: [4]byte{10, byte(100 + i/256), byte(i % 256), 7}, Len: 32}
+	}
+	return wPrefix{IP: [4]byte{10, 20, byte(k), 0}, Len: 24 + k%9}
+}
 
 type sConnScript struct {
 	asn       uint32        // AS number the peer presents
@@ -78,6 +84,8 @@ type sPeer struct {
 	kalives              int
 	closedAt             int           // len(trace) when Close returned, -1 before
 	t0                   time.Time     // start of the schedule
+	oversized            int           // UPDATEs longer than 4096 octets
+	wantID               [4]byte       // router id the OPEN must carry
 	closeCalled          bool          // the driver is in / past Close()
 	lastMsg              time.Time     // last BGP message seen by the peer
 	failAt               time.Time     // a connection attempt failed then (zero: none outstanding)
@@ -153,7 +161,7 @@ func sReadMsg(c net.Conn) ([]byte, error) {
 		return nil, err
 	}
 	l := int(hdr[16])<<8 | int(hdr[17])
-	if l < 19 || l > 4096 {
+	if l < 19 {
 		return hdr, fmt.Errorf("bad length %d", l)
 	}
 	body := make([]byte, l-19)
@@ -245,9 +253,9 @@ func (p *sPeer) handle(pc *sPeerConn, sc sConnScript) {
 		if a != p.myASN || !fb {
 			p.fail("session-open-wrong-asn", fmt.Sprintf("session OPEN says asn %d as4 %v, configured %d", a, fb, p.myASN))
 		}
-		if int(hold) != p.wantHold || m.Open.ASN != want16 || m.Open.ID != [4]byte{10, 0, 0, 1} || !mp4 || !mp6 || !onlyCaps || ncaps != 3 {
-			p.fail("session-open-not-as-configured", fmt.Sprintf("session OPEN %x: asn16=%d hold=%d id=%v mp4=%v mp6=%v as4=%v caps=%d; configured asn=%d hold=%d id=10.0.0.1, capabilities MP v4, MP v6, AS4",
-				om, m.Open.ASN, hold, m.Open.ID, mp4, mp6, fb, ncaps, p.myASN, p.wantHold))
+		if int(hold) != p.wantHold || m.Open.ASN != want16 || m.Open.ID != p.wantID || !mp4 || !mp6 || !onlyCaps || ncaps != 3 {
+			p.fail("session-open-not-as-configured", fmt.Sprintf("session OPEN %x: asn16=%d hold=%d id=%v mp4=%v mp6=%v as4=%v caps=%d; configured asn=%d hold=%d id=%v, capabilities MP v4, MP v6, AS4",
+				om, m.Open.ASN, hold, m.Open.ID, mp4, mp6, fb, ncaps, p.myASN, p.wantHold, p.wantID))
 		}
 		p.mu.Unlock()
 	}
@@ -382,6 +390,15 @@ func (p *sPeer) handle(pc *sPeerConn, sc sConnScript) {
 		}
 		p.lastMsg = time.Now()
 		m, derr := vDecode(mb, sc.as4)
+		if derr != nil && len(mb) > 4096 {
+			// longer than RFC 4271 allows: recorded (finding withdraw-exceeds-4096-octets when it is
+			// a pure withdraw), then read like a lenient peer so that convergence can still be judged
+			if lm, lerr := vDecodeMax(mb, sc.as4, 65535); lerr == nil && lm.Type == 2 && len(lm.Update.NLRI) == 0 && len(lm.Update.Withdrawn) > 0 {
+				p.fail("withdraw-exceeds-4096-octets", fmt.Sprintf("c%d: one UPDATE withdrawing %d prefixes is %d octets long", pc.id, len(lm.Update.Withdrawn), len(mb)))
+				p.oversized++
+				m, derr = lm, nil
+			}
+		}
 		switch {
 		case derr != nil:
 			p.fail("session-message-malformed", fmt.Sprintf("c%d: %x: %v", pc.id, mb, derr))
@@ -500,6 +517,9 @@ func sASPathWidth(mb []byte) int {
 }
 
 func sKeyOf(n vNLRI) int {
+	if n.Len == 32 && len(n.Bits) == 4 && n.Bits[0] == 10 && n.Bits[1] >= 100 && n.Bits[3] == 7 {
+		return sNKeys + int(n.Bits[1]-100)*256 + int(n.Bits[2])
+	}
 	for k := 0; k < sNKeys; k++ {
 		p := sPrefix(k)
 		if p.Len == n.Len && len(n.Bits) == (p.Len+7)/8 {
@@ -586,6 +606,13 @@ func sRunSchedule(t *testing.T, out *vOut, id int, r *rand.Rand, special string)
 	if special == "" && myASN <= 65535 {
 		p.capRand = rand.New(rand.NewSource(r.Int63()))
 	}
+	if special == "fail-after-success" {
+		// established, flap, the reconnect fails in its handshake (first failure of a
+		// streak: retried at once), then succeeds
+		hs := p.def
+		hs.dropInHS = true
+		p.scripts = []sConnScript{p.def, hs}
+	}
 	if capflip {
 		// first connection with the opposite capability of all later ones
 		first := p.def
@@ -664,9 +691,43 @@ func sRunSchedule(t *testing.T, out *vOut, id int, r *rand.Rand, special string)
 		holdName = fmt.Sprint(p.wantHold)
 	}
 	out.Stat("sess:hold="+holdName, 1)
-	si, err := NewSessionManager(log.NewNopLogger()).NewSession(log.NewNopLogger(), bgp.SessionParameters{
+	// the optional parameters as the configuration layer produces them: source address
+	// (net.ParseIP: 16-byte form, or 4-byte), router id (unset: derived from the local
+	// address of the connection), node name, and the knobs native mode ignores
+	params := bgp.SessionParameters{
 		PeerAddress: "127.0.0.1", PeerPort: uint16(port), MyASN: myASN, PeerASN: peerASN,
-		RouterID: net.ParseIP("10.0.0.1"), HoldTime: htp, CurrentNode: "verif"})
+		RouterID: net.ParseIP("10.0.0.1"), HoldTime: htp, CurrentNode: "verif"}
+	p.wantID = [4]byte{10, 0, 0, 1}
+	switch r.Intn(4) {
+	case 0:
+		params.SourceAddress = net.ParseIP("127.0.0.1")
+	case 1:
+		params.SourceAddress = net.IP{127, 0, 0, 1}
+	}
+	if r.Intn(4) == 0 {
+		params.RouterID = nil // getRouterID: the IPv4 local address of the connection
+		p.wantID = [4]byte{127, 0, 0, 1}
+		out.Stat("sess:router-id-derived", 1)
+	} else if r.Intn(3) == 0 {
+		params.RouterID = net.IP{10, 0, 0, 1}
+	}
+	if r.Intn(2) == 0 {
+		params.CurrentNode = []string{"", "node-a", "kind-worker3"}[r.Intn(3)]
+		ka, ct := 7*time.Second, 3*time.Second
+		params.KeepAliveTime, params.ConnectTime = &ka, &ct
+		params.EBGPMultiHop, params.GracefulRestart, params.DisableMP = r.Intn(2) == 0, r.Intn(2) == 0, r.Intn(2) == 0
+		params.SessionName, params.VRFName = "peer-x", ""
+	}
+	switch special {
+	case "source-address:16":
+		params.SourceAddress = net.ParseIP("127.0.0.1")
+	case "source-address:4":
+		params.SourceAddress = net.IP{127, 0, 0, 1}
+	}
+	if params.SourceAddress != nil {
+		out.Stat(fmt.Sprintf("sess:source-address-%d-byte-form", len(params.SourceAddress)), 1)
+	}
+	si, err := NewSessionManager(log.NewNopLogger()).NewSession(log.NewNopLogger(), params)
 	if err != nil {
 		t.Fatal(err)
 	}
@@ -780,6 +841,62 @@ func sRunSchedule(t *testing.T, out *vOut, id int, r *rand.Rand, special string)
 			waitFor(func() bool { return p.nconn >= 2 })
 		}
 		out.Stat("sess:close-in-handshake", 1)
+	}
+	universe := []int{0, 1, 2, 3, 4, 5}
+	if special == "fail-after-success" {
+		nact = 0
+		doSet()
+		waitFor(func() bool { return p.cur != nil && p.cur.estab })
+		p.dropIdle()
+		doSet()
+	}
+	if strings.HasPrefix(special, "mass-withdraw") {
+		// one Set announces ~900-1300 host routes, the next one keeps a handful: a single
+		// change that withdraws far more than 814 /32 routes (one UPDATE > 4096 octets today)
+		nact = 0
+		nbig := 900 + r.Intn(400)
+		for k := 0; k < nbig; k++ {
+			universe = append(universe, sNKeys+k)
+		}
+		setOf := func(keys []int) {
+			nw := map[int]int{}
+			var advs []*bgp.Advertisement
+			var pairs []string
+			for _, k := range keys {
+				v := variants[r.Intn(len(variants))]
+				nw[k] = v
+				a := wAdv{P: sPrefix(k), LP: sAttrs[v].LP, Comms: sAttrs[v].Comms}
+				advs = append(advs, a.real())
+				pairs = append(pairs, cPair(cNi(k), cNi(v)))
+			}
+			p.mu.Lock()
+			p.log("TSet "+cList(pairs), fmt.Sprintf("Set of %d routes", len(keys)))
+			p.mu.Unlock()
+			if err := s.Set(advs...); err != nil {
+				p.mu.Lock()
+				p.fail("session-set-rejected", fmt.Sprintf("Set(%d routes) = %v", len(keys), err))
+				p.mu.Unlock()
+			}
+			p.mu.Lock()
+			p.log("TSetRet", "Set returned")
+			p.mu.Unlock()
+			want = nw
+		}
+		setOf(universe[2:])
+		waitFor(func() bool { return p.cur != nil && len(p.cur.table) == len(want) })
+		keep := []int{universe[2], universe[6+r.Intn(nbig)], universe[6+r.Intn(nbig)]}
+		if r.Intn(2) == 0 {
+			keep = append(keep, 0) // and something new
+		}
+		sort.Ints(keep)
+		kk := keep[:0]
+		for i, k := range keep {
+			if i == 0 || k != keep[i-1] {
+				kk = append(kk, k)
+			}
+		}
+		setOf(kk)
+		out.Stat("sess:mass-withdraw", 1)
 	}
 	if capflip {
 		nact = 0
@@ -981,6 +1098,7 @@ func sRunSchedule(t *testing.T, out *vOut, id int, r *rand.Rand, special string)
 		out.Stat("sess:close-in-backoff-refusals", p.refused)
 	}
 	out.Stat("sess:failed-attempt-after-a-success", p.failAfterOK)
+	out.Stat("sess:oversized-updates", p.oversized)
 	out.Stat("sess:cap-flip-on-off", p.flipOnOff)
 	out.Stat("sess:cap-flip-off-on", p.flipOffOn)
 	out.Stat("sess:ebgp-updates-with-connection-width", p.widthOK)
@@ -999,7 +1117,10 @@ func sRunSchedule(t *testing.T, out *vOut, id int, r *rand.Rand, special string)
 		out.Fail(sig, f[1], human)
 	}
 	coq := fmt.Sprintf("STrace %d {| my_asn := %d; peer_asn := %d; universe := %s; cfg_hold := %s |} [%s]",
-		id, myASN, peerASN, cListN([]int{0, 1, 2, 3, 4, 5}), holdCoq, strings.Join(p.trace, "; "))
+		id, myASN, peerASN, cListN(universe), holdCoq, strings.Join(p.trace, "; "))
+	if len(p.human) > 400 { // keep the evidence / replay files readable
+		p.human = append(append([]string{}, p.human[:200]...), fmt.Sprintf("... %d events ...", len(p.human)-400))
+	}
 	out.Case(id, "schedule:"+final, coq, human)
 }
 
@@ -1581,7 +1702,11 @@ var sCapFlips = []string{"capflip:on-off:ebgp", "capflip:off-on:ebgp", "capflip:
 
 // what ./check C16 drives through REAL sessions: capability flips and the
 // configured hold time (0 and unset) in the OPEN on the wire
-var sWireFixed = append(append([]string{}, sCapFlips...), "hold:0", "hold:nil")
+var sWireFixed = append(append(append([]string{}, sCapFlips...), "hold:0", "hold:nil"), sSource...)
+
+// one change withdrawing more than 814 /32 routes; sessions with a pinned source address
+var sMass = []string{"mass-withdraw:a", "mass-withdraw:b"}
+var sSource = []string{"source-address:16", "source-address:4"}
 
 // Close() landing inside a connection attempt
 var sCloseHS = []string{"close-in-handshake:accepted", "close-in-handshake:open-sent", "close-in-handshake:after-flap"}
@@ -1624,9 +1749,15 @@ func TestVerifSess(t *testing.T) {
 	bg(2, "close-in-backoff", r.Int63())
 	bg(3, "keepalive:3s", r.Int63())
 	next := 4
-	for _, sp := range sCloseHS {
+	for _, sp := range append(append([]string{}, sCloseHS...), "fail-after-success") {
 		bg(next, sp, r.Int63())
 		next++
+	}
+	for k := 0; k < 1+n/100; k++ {
+		for _, sp := range sMass {
+			bg(next, sp, r.Int63())
+			next++
+		}
 	}
 	psem := make(chan struct{}, par)
 	for k := 0; k < 4+n/5; k++ {
